@@ -176,6 +176,11 @@ func genPanicSpec(rt *rapid.T) *PanicSpec {
 		if string(s.Dir.Verb) == "v" {
 			s.Dir.Flags = stringsReplaceAll(s.Dir.Flags, "#", "")
 		}
+	case "safemsg!":
+		// SafeMessage is called for the verbs that apply to strings (for the
+		// others the bad verb is reported without calling it, as fmt does with
+		// String and Error)
+		s.Dir.Verb = B(string("vsxXq"[rapid.IntRange(0, 4).Draw(rt, "smv")]))
 	case "gostr!":
 		s.Dir.Verb = B("v")
 		if !bytesContains([]byte(s.Dir.Flags), '#') {
